@@ -934,7 +934,7 @@ class SC:
         return self.im
 
     def __abs__(self):
-        return (self.re * self.re + self.im * self.im).sqrt()
+        return (self.re * self.re + self.im * self.im).sqrt_of_sum_of_squares()
 
     def __eq__(self, o):
         o = self._co(o)
